@@ -378,3 +378,8 @@ def run_part(ctx, prop):
 
 def run(ctx):
     return run_part(ctx, ctx.prop)
+
+
+def replay(ctx, path):
+    from engines import replayer
+    return replayer.replay(ctx, path)
